@@ -30,7 +30,12 @@ PROP = dict(
          "(adjacent *Imm instructions; reassociation changes float rounding and which int operation overflows): every pair of + - * / (% for ints) "
          "on 12 int and 12 float trouble triples (MAX±1, MIN, 2^53 + 1.0 + 1.0, 1.0 + 6e-17 + 6e-17, MAX + MAX - MAX, ±0, subnormals) plus seeded "
          "triples, as expression, call argument, function body and compound assignment `x op= A op B`, literal vs variable forms with the optimizer "
-         "on and off, and one bundle program per triple in the exact optimize tie and the on/off oracle; "
+         "on and off, and one bundle program per triple in the exact optimize tie and the on/off oracle; (5) *Imm sweep: each of the 21 "
+         "arithmetic/comparison *Imm instructions (presence in the optimized assembly confirmed from the dump) with 16 float / 11 int constants "
+         "(whole-number exponents 2..5, -1..-3, 16, 17, 0.5, ±0, huge) at a spread of NON-literal first operands (random mantissas, ±0, subnormals, "
+         "2^53+1, ±MAX, ±inf, NaN; ints: boundaries and random) with the operand in a local and on top of the stack, destination top and local, "
+         "against the variable-operand (un-fused) form with the optimizer off, compared on the printed shortest-round-trip text (bit-exact "
+         "for non-NaN) plus a NaN sign probe; "
          "distinct = distinct request; non-trivial = the optimized assembly differs from the input",
     nontrivial=lambda req, imp: imp != " ".join(w for w in req.split(" #")[0].split()[2:] if w[:2] in ("I:", "L:")),
     trusted_base=COMMON_TB + [
